@@ -109,6 +109,10 @@ func withWatchdog(w *W, idx int, caseID string, limit time.Duration, fn func()) 
 	buf := make([]byte, 8<<20)
 	buf = buf[:runtime.Stack(buf, true)]
 	blocked, active, sample := classifyGoroutines(string(buf))
+	if len(buf) > 256<<10 {
+		buf = buf[:256<<10]
+	}
+	fmt.Fprintf(os.Stderr, "watchdog: %s did not complete within %s; goroutines:\n%s\n", caseID, limit, buf) // worker log, for diagnosis
 	if blocked > 0 && active == 0 {
 		w.Violate(idx, caseID, fmt.Sprintf("[deadlock] the round did not complete within %s and all %d workload goroutines are blocked in sync/channel waits:\n%s", limit, blocked, sample), "",
 			map[string]any{"idx": idx, "race": true, "engine": "E3", "kind": "hang"})
